@@ -42,7 +42,7 @@ def prefs_view(name):
 
 OPS = ['add_uid_B', 'add_uid_img', 'add_sub_sign', 'add_sub_enc', 'recert_A_P2', 'recert_A_P3_same_second', 'recert_B_P3', 'third_party_A', 'third_party_A_local',
        'revoke_uid_A', 'revoke_sub0', 'revoke_key', 'add_revoker', 'del_uid_B', 'protect', 'derive_pub', 'copy', 'export_import_bin', 'export_import_asc',
-       'direct_sig']
+       'direct_sig', 'direct_third_local']
 
 ROOTS = ['ed25519a', 'ecdsa_p256a', 'rsa2048a']
 
@@ -54,6 +54,7 @@ class Model(object):
         self.key_revoked = False
         self.revokers = 0
         self.direct = 0
+        self.direct_third = []                     # exportable flag of each third-party direct-key signature held by the object
         self.protected = False
 
     def enabled(self, op):
@@ -84,6 +85,8 @@ class Model(object):
             return not self.protected
         if op == 'direct_sig':
             return self.direct == 0
+        if op == 'direct_third_local':
+            return len(self.direct_third) == 0
         return True
 
 
@@ -123,7 +126,7 @@ class World(object):
         """Execute one operation of the menu on the live key (inside an unlock scope when the model says protected)."""
         import pgpy
         m = self.model
-        if m.protected and op not in ('derive_pub', 'copy', 'export_import_bin', 'export_import_asc', 'del_uid_B'):
+        if m.protected and op not in ('derive_pub', 'copy', 'export_import_bin', 'export_import_asc', 'del_uid_B', 'direct_third_local'):
             with self.key.unlock(PW):
                 self._apply(op)
         else:
@@ -198,6 +201,10 @@ class World(object):
             t = self.tick()
             key |= key.certify(key, created=t, usage={KeyFlags.Certify, KeyFlags.Sign})
             m.direct += 1
+        elif op == 'direct_third_local':
+            t = self.tick()
+            key |= self.other.certify(key, created=t, exportable=False)
+            m.direct_third.append(False)
         elif op == 'del_uid_B':
             key.del_uid('Bob B')
             del m.uids['B']
@@ -213,6 +220,7 @@ class World(object):
             # non-exportable certifications do not survive an export
             for u in m.uids.values():
                 u['third'] = [x for x in u['third'] if x]
+            m.direct_third = [x for x in m.direct_third if x]
         else:
             raise ValueError(op)
 
